@@ -50,8 +50,13 @@ def check_stream(case, seq, ns, data, delimited) -> list[tuple[str, str]]:
     if [T.norm_st(s) for s in jspec.statements(per)] != expect:
         raise HarnessError(f"reference encoder/decoder disagree on {case}")
     want_ns = [(n, ("I", i)) for n, i in ns]
-    if jspec.namespaces(per) != want_ns:
+    ref_ns = jspec.namespaces(per)
+    if ref_ns[: len(want_ns)] != want_ns or any(
+            x != ("late", ("I", "http://late/ns#")) for x in ref_ns[len(want_ns):]):
         raise HarnessError(f"reference encoder/decoder disagree on namespaces {case}")
+    want_ns = ref_ns
+    want_events = [("st", T.norm_st(e[1])) if e[0] == "st" else ("ns", e[1], e[2])
+                   for e in jspec.flat(per) if e[0] in ("st", "ns")]
     rdf11 = all(T.is_rdf11(s) for s in seq)
     fails = []
     for api, reader in parsers(rdf11):
@@ -74,6 +79,10 @@ def check_stream(case, seq, ns, data, delimited) -> list[tuple[str, str]]:
             if got_ns != want_ns:
                 fails.append((f"{api}.{reader}", f"{api} {reader} returns namespaces {got_ns}, "
                                                  f"the stream declares {want_ns}"))
+            elif ok and [tuple(e) for e in evs] != want_events:
+                fails.append((f"{api}.{reader}", f"{api} {reader} returns statements and "
+                                                 f"declarations in the order {evs}, the stream "
+                                                 f"has them in the order {want_events}"))
     return fails
 
 
